@@ -8,7 +8,7 @@ READY = True
 # scratch databases on tmpfs when there is one: the property is about sizes, not about the disk (fdatasync on a loaded
 # disk costs 10..100 ms per append and every case needs ~8 appends)
 ENV = {"TMPDIR": "/dev/shm"} if os.path.isdir("/dev/shm") and os.access("/dev/shm", os.W_OK) else {}
-XCHECK = 60
+XCHECK = 30
 RULE = ("cases = (segment size in {128 KiB, 256 KiB}, compression on/off, transaction shape, fill level): the live segment of a REAL Database is "
         "filled to exactly segment_size - k for every k in [min(estimate,stored) - 64, max(estimate,stored) + 64] (sampled when that range exceeds 400; "
         "the 5 offsets around each of the two decision boundaries and the empty segment are always kept), then the transaction is appended and "
@@ -16,7 +16,7 @@ RULE = ("cases = (segment size in {128 KiB, 256 KiB}, compression on/off, transa
         "Shapes: 1..4 events, incompressible (stored larger than raw) / compressible / below the compression threshold, sizes up to the segment, "
         "the classes (b) estimate fits but stored does not and (c) estimate exceeds the segment but stored fits, plus random shapes from the seed. "
         "The stored length of every record is recorded from the real writer and is the model's oracle. "
-        "non-trivial = the live segment was not empty or the transaction has several events. The run stops at a time budget (60 s quick, 14 min thorough).")
+        "non-trivial = the live segment was not empty or the transaction has several events. Cases exactly on a decision boundary run first. The run stops at a time budget (45 s quick, 14 min thorough).")
 ASSUMPTIONS = [
     "Model/ByteLayout.v is hand-written from writer_thread_pool.rs handle_append_events / rollover, bucket/segment.rs constants and seglog write.rs append / prepare_data / set_len; tie = this differential run",
     "zstd is not modelled: the stored length of each compressed record is an oracle field recorded by the harness (same RawEvent appended to a scratch BucketSegmentWriter); the theorems quantify over every value of it",
